@@ -95,11 +95,13 @@ def split2 (s : String) : List String :=
   let q := splitFirst p.2
   if q.1 = "" then [p.1] else if q.2.isEmpty then [p.1, q.1] else [p.1, q.1, String.ofList q.2]
 
-/-- `to_float(s)`: `ValueError` when the text is not a number -/
+/-- `to_float(s)` (= `float(s)`): the text is one number, possibly surrounded by white space; `ValueError` otherwise -/
 def toFloat (s : String) : Py.M Num :=
-  match Dec.parse s with
-  | some x => .ok x
-  | none => .error .value
+  match Op.FllIO.words s.toList with
+  | [w] => (match Dec.parse w with
+    | some x => .ok x
+    | none => .error .value)
+  | _ => .error .value
 
 /-- truth value of a `str | None` -/
 def truthyOptStr : Option String → Bool
